@@ -17,11 +17,11 @@ from qv.alg import I, ZERO, ONE
 
 LEVEL = "proof"
 MANIFEST = {
-    "engine": "qv-native",
+    "engine": "qv-native+qv-gen",
     "category": "proof",
     "technique": "contracts on every function of utils/cplx.py, bodies executed on symbolic real/imaginary parts; obligations discharged by polynomial normal form and z3",
-    "text": "Each cplx function (make_complex, numpy, real/imag, scalar_mult incl. out= and aliasing errors, matmul, inner_prod, outer_prod, einsum with part switches, conjugate/conj, elementwise mult/division, absolute_value, kronecker_prod, sigmoid, scalar_divide, inverse, norm_sqr, norm, the float32 constant I) is executed on fully symbolic operands for every enumerated shape and must equal native complex arithmetic on the decoded operands entry for entry; unsupported shapes and aliasing output buffers must raise.",
-    "note": "floats as reals; values unbounded, shapes enumerated (ranks 0..3, dims {1,2} quick / ranks 0..4, dims {1,2,3} thorough); division identities carry y != 0 as precondition",
+    "text": "Each cplx function (make_complex, numpy, real/imag, scalar_mult incl. out= and aliasing errors, matmul, inner_prod, outer_prod, einsum with part switches, conjugate/conj, elementwise mult/division, absolute_value, kronecker_prod, sigmoid, scalar_divide, inverse, norm_sqr, norm, the float32 constant I) is executed on fully symbolic operands for every enumerated shape and must equal native complex arithmetic on the decoded operands entry for entry; unsupported shapes and aliasing output buffers must raise. Additionally (front end G) 71 contract cases cover every function except kronecker_prod and the numpy-based sigmoid on operands of symbolic shape: equal to complex arithmetic for every size, with both outcomes of each shape test explored.",
+    "note": "floats as reals; values unbounded, shapes enumerated (ranks 0..3, dims {1,2} quick / ranks 0..4, dims {1,2,3} thorough); division identities carry y != 0 as precondition; the shape-generic part (front end G) holds for all sizes and values, equalities decided by tensor-algebra normal form (sound, incomplete: a miss is undecided, never a violation without a replayed witness)",
 }
 EXPLANATION = "symbolic operands x = re + i*im with every entry a free real; result compared with numpy-operator spec on decoded operands"
 TRUSTED = []
